@@ -72,6 +72,22 @@ def coplanarity_ambiguous(V, facets, normals, offsets, lo=1e-12, hi=1e-6):
     return bool(np.any((dd > lo) & (dd < hi)))
 
 
+def as_layout(A, k):
+    """The same (n, d) values in another memory layout: 0 C-contiguous copy, 1 a strided window of a wider array,
+    2 Fortran order, 3 a reversed-stride view (all are ordinary ndarrays a caller may hold)."""
+    A = np.asarray(A, dtype=float)
+    k = k % 4
+    if k == 1:
+        buf = np.full((A.shape[0], A.shape[1] + 2), 7.25)
+        buf[:, 1:-1] = A
+        return buf[:, 1:-1]
+    if k == 2:
+        return np.asfortranarray(A)
+    if k == 3:
+        return A[::-1].copy()[::-1]
+    return A.copy()
+
+
 def facet_flatness(V, facets, normals, offsets):
     """Largest distance of a facet's own vertices from the facet plane, in units of eps * (largest |coordinate|)."""
     V = np.asarray(V, dtype=float)
